@@ -208,6 +208,18 @@ func vStepOp(pre *vPre, op int) bool {
 			vAssert("setitem-65535-accepted", err == nil)
 			m.set(big, []byte{}, 7)
 			vCover("key-65535")
+			if pre.f != nil && pre.cfg.n == 0 && vChoose("big-key-roundtrip", 0, 1) == 1 {
+				// the boundary key must also survive the file: flush, re-open, look it up
+				vTrace("Flush+Reopen(65535-byte key)")
+				vAssert("bigkey-flush", pre.s.Flush() == nil)
+				s2, err := NewStore(pre.f)
+				vAssert("bigkey-reopen", vAnd(err == nil, s2 != nil))
+				if s2 != nil && s2.GetCollection(pre.cfg.name) != nil {
+					pre.s, pre.c = s2, s2.GetCollection(pre.cfg.name)
+					it, err := pre.c.GetItem(big, true)
+					vAssert("bigkey-get", vAnd(err == nil, it != nil))
+				}
+			}
 			return true
 		}
 		err := c.SetItem(it)
